@@ -165,7 +165,8 @@ def expr_steps():
     add("case/coalesce", lambda x, c: x >> pdt.mutate(w=pdt.when(x.a > 2).then(x.h).when(x.f).then(x.a).otherwise(None), v=pdt.coalesce(x.a, x.h), u=x.a.fill_null(0) + x.h, m=x.a.map({1: 10, 2: 20}, default=x.h)), needs=("a", "f", "h"))
     add("case(window|col)", lambda x, c: x >> pdt.mutate(w=pdt.when(x.f).then(x.h.shift(1, arrange=x.h)).otherwise(x.a), v=pdt.when(x.a > 1).then(x.a.sum()).otherwise(x.h)), needs=("a", "f", "h"), uniq=True)
     add("arith", lambda x, c: x >> pdt.mutate(w=x.a * x.h - 3, v=x.h // 4, u=x.h % 4, p=(-x.h) // 4, q=(-x.h) % 4, r=x.b / 2 + x.a, ab=(x.a - 3).abs(), fl=(x.b / 4).floor(), ce=(x.b / 4).ceil()), needs=("a", "b", "h"))
-    add("compare/bool", lambda x, c: x >> pdt.mutate(w=(x.a > 2) & x.f, v=(x.a <= 2) | x.f, u=~x.f, e=x.a == x.h, ne=x.a != x.h, i=x.a.is_in(1, 2, 5), i2=x.h.is_in(x.a, 7), i3=x.a.is_in(1, None), n=x.a.is_null(), nn=x.s.is_not_null(), x_=x.f ^ (x.a > 1)), needs=("a", "f", "h", "s"))
+    add("compare/bool", lambda x, c: x >> pdt.mutate(w=(x.a > 2) & x.f, v=(x.a <= 2) | x.f, u=~x.f, e=x.a == x.h, ne=x.a != x.h, i=x.a.is_in(1, 2, 5), i2=x.h.is_in(x.a, 7), i3=x.a.is_in(1, None), en=x.a == None, nen=x.s != None,  # noqa: E711
+         n=x.a.is_null(), nn=x.s.is_not_null(), x_=x.f ^ (x.a > 1)), needs=("a", "f", "h", "s"))
     add("string", lambda x, c: x >> pdt.mutate(w=x.s + "z", v=x.s.str.len(), u=x.s.str.upper(), st=x.s.str.starts_with("k"), ct=x.s.str.contains("1"), sl=x.s.str.slice(1, 2), rp=x.s.str.replace_all("k", "qq")), needs=("s",))
     add("cast", lambda x, c: x >> pdt.mutate(w=x.a.cast(pdt.Float64()), v=x.h.cast(pdt.String()), u=x.f.cast(pdt.Int64()), b_=x.b.cast(pdt.Int64())), needs=("a", "b", "f", "h"))
     add("min/max horizontal", lambda x, c: x >> pdt.mutate(w=pdt.max(x.a, x.h), v=pdt.min(x.a, x.h, 3), w4=pdt.max(x.h, x.a, 3, x.h - 4), v4=pdt.min(x.a + 5, x.h + 5, x.h, x.a + 1), v5=pdt.min(x.h, 9, x.a, x.h * 2, 4)), needs=("a", "h"))
